@@ -1,0 +1,15 @@
+//go:build verif
+
+package common
+
+// VerifState reports the closed flag of the queue and whether its current deadline channel is
+// closed (expired or cancelled).  Read-only accessor for the verification harness.
+func (d *DeadlineChan[T]) VerifState() (closed, expired bool) {
+	closed = d.closed.Load()
+	select {
+	case <-d.deadline.Done():
+		expired = true
+	default:
+	}
+	return
+}
